@@ -47,7 +47,7 @@ LScenario(s, crlf) ==
       frag == [j \in 1..5 |-> [op |-> "execfrag", ctx |-> 46 + j, text |-> t, frags |-> <<<<1, 2, 7, 64, 1000>>[j]>>, same_run_as |-> 1]]
       \* the bloc command reads a script file and its standard input through readers of its own
       cli == IF crlf \/ s = 1
-             THEN [k \in 1..92 |-> [op |-> "cli", mode |-> (IF k <= 46 THEN "file" ELSE "stdin"), text |-> t, padline |-> 984 + ((k - 1) % 46) + 1, args |-> <<>>, same_out_as |-> 1]]
+             THEN [k \in 1..138 |-> [op |-> "cli", mode |-> (IF k <= 46 THEN "file" ELSE IF k <= 92 THEN "stdin" ELSE "inter"), text |-> t, padline |-> 984 + ((k - 1) % 46) + 1, args |-> <<>>, same_out_as |-> 1]]
              ELSE <<>>
       \* the INCLUDE statement reads the file with a reader of its own
       incl == [k \in 1..46 |-> [op |-> "execfrag", ctx |-> 100 + k, reader |-> "include", text |-> t, padline |-> 984 + k, same_run_as |-> 1, nounp |-> TRUE]]
